@@ -111,6 +111,10 @@ func Image(t *rapid.T, o Opts) bt.Image {
 	// mostly the current schema format; sometimes an older one, in which DESC
 	// in index definitions is ignored (everything is stored ascending)
 	img.Header.SchemaFormat = rapid.SampledFrom([]uint32{0, 0, 0, 0, 4, 3, 2}).Draw(t, "schemaformat")
+	if rapid.IntRange(0, 5).Draw(t, "stalesize") == 0 {
+		// an in-header size that is out of date and marked so
+		img.Header.StaleSize = rapid.IntRange(1, 999).Draw(t, "stalesizepm")
+	}
 	ncols := rapid.IntRange(1, 4).Draw(t, "ncols")
 	nrows := rapid.IntRange(0, o.MaxRows).Draw(t, "nrows")
 	if rapid.IntRange(0, 5).Draw(t, "fewrows") == 0 {
